@@ -207,6 +207,7 @@ func C08(c *Ctx) {
 	c.R.Rule("C08-R8", "E3", "a successful Exec hands back the execution that collected the emitted messages", 1)
 	c08ExecHandsBack(c, "C08-R8")
 	c08Wrappers(c, "C08-R1")
+	c.shareRule("C11", "C11-R9", "C08-R10", "an execution whose context has ended does not count as run: it returns the timeout error and no Execution, so nothing it emitted is handed on")
 	c.R.Rule("C08-R9", "E3", "only nothing, a map or bindings count as the bindings an action returned", 1)
 	c08ResultKinds(c, "C08-R9")
 	c08WalkHandedBack(c, "C08-R5")
